@@ -29,7 +29,9 @@ def run(ctx):
         'Kekule form, explicit hydrogens, molecule object) must give the same descriptors or the same failure class',
         'theorems (Graph/Scheme_proofs.v): aromatisation of a single alternating ring is independent of where the ring list starts; its dependence on '
         'ring ORDER for fused alternating rings is proved as a refutation witness (known finding)',
-        'RDKit producing isomorphic prepared graphs for equivalent spellings is an external; descriptors_perm_invariant of DESIGN 5/C03 is not yet a theorem']
+        'theorem C03_descriptors_renumbering (Graph/Descr_equiv.v): for every scheme with reader-produced, prefix-free patterns and a chain-free remap table '
+        'the whole descriptor dictionary (groups, correction descriptors, remaps, groups.update(descriptors)) of a renumbered prepared graph is the same map',
+        'RDKit producing isomorphic prepared graphs for equivalent spellings is an external (decided by the spelling oracle)']
     rng = ctx.rng
     jobs = []
     for lib in gen.SHIPPED:
